@@ -201,6 +201,7 @@ def _solve(i):
         # (s^2 + c^2 = 1); if the residual normalises to 0 the negated claim reads `0 != 0`,
         # which z3 refutes at once. Anything else goes to nlsat unchanged.
         from . import poly
+        poly.LIMIT = getattr(ctx, 'poly_limit', None) or poly.DEFAULT_LIMIT
         try:
             pz = poly.eliminate(ob.expr, ctx)
             if pz.is_zero():
